@@ -197,6 +197,14 @@ define {
   FlagOrM(ii, mm, fl) == running[ii][mm] /\ \E rr \in 1..NReg(mm) : LET st == active[ii][mm][rr] IN
         fl \in MD(mm).flags[st] \/ (IsSub(mm, st) /\ FlagOrM(ii, st, fl))
   FlagOr(ii, mm, fl) == IF IsB THEN FlagOrB(ii, mm, fl) ELSE FlagOrM(ii, mm, fl)
+  \* is_flag_active<F, Flag_AND>: back folds the machine's own regions with AND, a submachine state without the flag forwards to the
+  \* submachine's default (OR) query; backmp11 visits every active state at every depth that lacks the flag (nothing when not running)
+  FlagAndB(ii, mm, fl) == \A rr \in 1..NReg(mm) : LET st == active[ii][mm][rr] IN
+        fl \in MD(mm).flags[st] \/ (IsSub(mm, st) /\ FlagOrB(ii, st, fl))
+  RECURSIVE FlagAndM(_, _, _)
+  FlagAndM(ii, mm, fl) == running[ii][mm] => \A rr \in 1..NReg(mm) : LET st == active[ii][mm][rr] IN
+        fl \in MD(mm).flags[st] /\ (IsSub(mm, st) => FlagAndM(ii, st, fl))
+  FlagAnd(ii, mm, fl) == IF IsB THEN FlagAndB(ii, mm, fl) ELSE FlagAndM(ii, mm, fl)
   \* blocking (terminate / interrupt): back looks at the machine's own regions only (non-forwarding flags),
   \* backmp11 visits the whole active tree
   RECURSIVE KindActiveM(_, _, _)
@@ -227,7 +235,8 @@ define {
   VisitSeq(ii, mm, rr) == IF ~running[ii][mm] \/ rr > NReg(mm) THEN <<>>
         ELSE LET st == active[ii][mm][rr] IN <<st>> \o (IF IsSub(mm, st) THEN VisitSeq(ii, st, 1) ELSE <<>>) \o VisitSeq(ii, mm, rr + 1)
   IsaVec(ii) == [k \in 1..Len(Def.allstates) |-> IsActiveM(ii, Def.root, Def.allstates[k])]
-  FlagVec(ii, mm) == [k \in 1..Len(Def.flags) |-> FlagOr(ii, mm, Def.flags[k])]
+  FlagVec(ii, mm) == [k \in 1..(2 * Len(Def.flags)) |-> IF k <= Len(Def.flags) THEN FlagOr(ii, mm, Def.flags[k])
+                                                          ELSE FlagAnd(ii, mm, Def.flags[k - Len(Def.flags)])]
   UseHist(mm, et) == HistKind(mm) = "always" \/ (HistKind(mm) = "shallow" /\ et \in HistEvents(mm))
   EntryActive(ii, mm, named, et) ==
        [rr \in 1..NReg(mm) |->
